@@ -33,3 +33,50 @@ theorem dyck_run (es : List Ev) : ∀ (d : Nat) (s : St), dyck d es = true → d
     | loadBlocks p => simp [dyck] at h
 
 end MJ.Extends
+
+namespace MJ.Extends
+
+/-- a stream whose captures never reach below its entry leaves the caller's part of the capture stack
+(`c`) exactly as it was, with as many entries of its own on top as `bal` says — wherever its one
+`LoadBlocks` sits -/
+theorem bal_run (c : List Entry) (es : List Ev) : ∀ (l : Bool) (d : Nat) (s : St) (top : List Entry) (l' : Bool) (d' : Nat),
+    s.caps = top ++ c → top.length = d → (s.parent.isSome = l) → bal l d es = some (l', d') →
+    ∃ s' top', run s es = some s' ∧ s'.caps = top' ++ c ∧ top'.length = d' ∧ s'.parent.isSome = l' := by
+  induction es with
+  | nil =>
+    intro l d s top l' d' hc hl hp hb
+    simp only [bal, Option.some.injEq, Prod.mk.injEq] at hb
+    exact ⟨s, top, rfl, hc, by omega, by rw [hp]; exact hb.1⟩
+  | cons e es ih =>
+    intro l d s top l' d' hc hl hp hb
+    cases e with
+    | beginCapture n =>
+      simp only [bal] at hb
+      obtain ⟨s', top', hr, h1, h2, h3⟩ := ih l (d + 1) { s with caps := .block n :: s.caps } (.block n :: top) l' d'
+        (by simp [hc]) (by simp [hl]) hp hb
+      exact ⟨s', top', by simpa [run, ev] using hr, h1, h2, h3⟩
+    | endCapture =>
+      cases d with
+      | zero => simp [bal] at hb
+      | succ d =>
+        simp only [bal] at hb
+        cases top with
+        | nil => simp at hl
+        | cons t ts =>
+          obtain ⟨s', top', hr, h1, h2, h3⟩ := ih l d { s with caps := ts ++ c, popped := s.popped ++ [t] } ts l' d'
+            rfl (by simpa using hl) hp hb
+          exact ⟨s', top', by simpa [run, ev, hc] using hr, h1, h2, h3⟩
+    | loadBlocks p =>
+      cases l with
+      | true => simp [bal] at hb
+      | false =>
+        simp only [bal] at hb
+        have hpn : s.parent = none := by
+          cases h : s.parent with
+          | none => rfl
+          | some x => simp [h] at hp
+        obtain ⟨s', top', hr, h1, h2, h3⟩ := ih true (d + 1) { s with caps := .discard :: s.caps, parent := some p }
+          (.discard :: top) l' d' (by simp [hc]) (by simp [hl]) rfl hb
+        exact ⟨s', top', by simpa [run, ev, hpn] using hr, h1, h2, h3⟩
+
+end MJ.Extends
